@@ -4,7 +4,7 @@
 Writes /verif/seeded/RESULTS.json and RESULTS.md. Usage: run_seeded.py [name ...]"""
 import json, os, subprocess, sys, re
 SEED = "/verif/seeded"
-EXTRA = {"C09-b2": ["C14"], "C10-a3": ["C17"], "C10-w3-1": ["C17"], "C14-w8-3": ["C10"], "C10-w10-1": ["C09"]}  # detected by a neighbouring property's check
+EXTRA = {"C09-b2": ["C14"], "C10-a3": ["C17"], "C10-w3-1": ["C17"], "C14-w8-3": ["C10"], "C10-w10-1": ["C09"], "C10-w11-1": ["C09"], "C14-w11-2": ["C08"]}  # detected by a neighbouring property's check
 TIER = {"C10-w2-3": "heavy", "C10-w3-3": "heavy", "C09-w5-3": "heavy", "C09-w7-3": "heavy", "C10-w7-3": "heavy", "C10-w8-1": "heavy", "C10-w10-1": "heavy"}  # needs a scenario that only the thorough tier draws ("heavy" = that scenario alone, 80 runs)
 def sh(cmd, cwd="/verif", timeout=3600):
     p = subprocess.run(cmd, cwd=cwd, shell=True, stdout=subprocess.PIPE, stderr=subprocess.STDOUT, timeout=timeout, env=dict(os.environ, VERIF_SHRINK_SECONDS="8"))
